@@ -39,7 +39,7 @@ def model_value(m, term):
     if z3.is_int_value(v):
         return v.as_long()
     if z3.is_string_value(v):
-        return v.as_string()
+        return solver.zs(v)
     if z3.is_true(v) or z3.is_false(v):
         return z3.is_true(v)
     return str(v)
